@@ -289,6 +289,12 @@ func (ea *effectAnalysis) modTargetComps(fn *ssa.Function, m ModLoc, res *effect
 	}
 	switch n := m.E.(type) {
 	case *ECall:
+		if n.Fn == "ghostall" {
+			if id, ok := n.Args[0].(*EIdent); ok {
+				res.comps["ghost:"+id.Name] = true
+				return
+			}
+		}
 		if n.Fn == "ghost" {
 			if id, ok := n.Args[0].(*EIdent); ok {
 				res.comps["ghost:"+id.Name] = true
